@@ -59,9 +59,13 @@ type effAnalysis struct {
 type effCtx struct {
 	fn     *ssa.Function
 	params []loc
-	free   map[*ssa.FreeVar]loc
-	memo   map[ssa.Value]loc
-	busy   map[ssa.Value]bool
+	// content: for a pointer parameter that denotes a local cell of the caller,
+	// where the value kept in that cell points (a fresh copy of a slice of
+	// pointers still leads to the objects the original pointed to)
+	content map[*ssa.Parameter]loc
+	free    map[*ssa.FreeVar]loc
+	memo    map[ssa.Value]loc
+	busy    map[ssa.Value]bool
 }
 
 var freshConstructors = map[string]bool{
@@ -211,6 +215,10 @@ func (a *effAnalysis) locOf(x *effCtx, v ssa.Value) loc {
 			l = locFresh
 			break
 		}
+		if p, isP := y.X.(*ssa.Parameter); isP && x.content[p] != 0 {
+			l = x.content[p]
+			break
+		}
 		base := a.locOf(x, y.X)
 		if root, isAlloc := ir.RootOf(y.X).(*ssa.Alloc); isAlloc {
 			// local cell: what was stored into it
@@ -297,6 +305,19 @@ func (a *effAnalysis) callResultLoc(x *effCtx, call *ssa.Call) loc {
 	if aliasResults[id] && len(args) > 0 {
 		return a.locOf(x, args[0])
 	}
+	if id == "builtin.append" && len(args) > 0 {
+		// the result continues the first operand's storage; elements that are references
+		// still point where the appended elements point
+		l := a.locOf(x, args[0])
+		if len(args) > 1 {
+			if sl, ok := args[1].Type().Underlying().(*types.Slice); ok && pointerLike(sl.Elem()) {
+				if _, isBasic := sl.Elem().Underlying().(*types.Basic); !isBasic {
+					l |= a.locOf(x, args[1])
+				}
+			}
+		}
+		return l
+	}
 	callee := calleeOrClosure(call)
 	if callee != nil && a.c.P.InLib(callee) && callee.Blocks != nil {
 		sub := a.calleeCtx(x, call, callee)
@@ -341,7 +362,29 @@ func (a *effAnalysis) calleeCtx(x *effCtx, call ssa.CallInstruction, callee *ssa
 			}
 		}
 	}
-	return a.newCtx(callee, params, free)
+	sub := a.newCtx(callee, params, free)
+	for i := range callee.Params {
+		if i >= len(args) {
+			break
+		}
+		cell, isCell := ir.StripConv(args[i]).(*ssa.Alloc)
+		if !isCell || cell.Referrers() == nil {
+			continue
+		}
+		var l loc
+		for _, r := range *cell.Referrers() {
+			if st, ok := r.(*ssa.Store); ok && st.Addr == ssa.Value(cell) && pointerLike(st.Val.Type()) {
+				l |= a.locOf(x, st.Val)
+			}
+		}
+		if shared(l) {
+			if sub.content == nil {
+				sub.content = map[*ssa.Parameter]loc{}
+			}
+			sub.content[callee.Params[i]] = l
+		}
+	}
+	return sub
 }
 
 func shared(l loc) bool { return l&(locRecv|locGlobal) != 0 }
@@ -486,6 +529,7 @@ var readOnlyAPI = []string{
 
 func checkC19(c *Ctx) {
 	c.rulePure(readOnlyAPI)
+	c.ruleSharedScratch("E.scratch", readOnlyAPI)
 	c.R.Floor("E.pure", 24)
 	c.ruleRecycle("P.recycle", nil)
 }
@@ -617,4 +661,102 @@ func (a *effAnalysis) storageOf(x *effCtx, v ssa.Value, depth int) loc {
 		return l
 	}
 	return a.locOf(x, v)
+}
+
+// ruleSharedScratch (E.scratch): a byte buffer kept on the object (a []byte
+// field of the receiver's struct, or a field of a helper object that is filled
+// from one) is never the destination of a read/copy in anything a read-only
+// operation can reach — including methods the standard library calls back
+// (io.Copy prefers src.WriteTo / dst.ReadFrom). Two concurrent calls of a
+// read-only operation would otherwise write the same scratch memory.
+func (c *Ctx) ruleSharedScratch(rule string, specs []string) {
+	fieldLoads := func(v ssa.Value, set map[string]bool) string {
+		for x := range c.sliceOf(v) {
+			if ld, ok := x.(*ssa.UnOp); ok && ld.Op == token.MUL {
+				if id := ir.FieldID(ld.X); id != "" && set[id] {
+					return id
+				}
+			}
+			if f, ok := x.(*ssa.Field); ok {
+				if id := ir.FieldID(f); id != "" && set[id] {
+					return id
+				}
+			}
+		}
+		return ""
+	}
+	done := map[string]bool{}
+	for _, spec := range specs {
+		fn := c.FnOpt(spec)
+		if fn == nil || fn.Signature.Recv() == nil {
+			continue
+		}
+		rt := fn.Signature.Recv().Type()
+		if p, ok := rt.Underlying().(*types.Pointer); ok {
+			rt = p.Elem()
+		}
+		st, ok := rt.Underlying().(*types.Struct)
+		if !ok {
+			continue
+		}
+		shared := map[string]bool{}
+		for k := 0; k < st.NumFields(); k++ {
+			if isByteSlice(st.Field(k).Type()) {
+				shared[ir.NamedTypeID(rt)+"."+st.Field(k).Name()] = true
+			}
+		}
+		if len(shared) == 0 {
+			continue
+		}
+		// fields of other objects that are filled from those
+		for round := 0; round < 3; round++ {
+			for _, g := range c.P.LibFunctions() {
+				instrsOf(g, func(i ssa.Instruction) {
+					s, ok := i.(*ssa.Store)
+					if !ok || !isByteSlice(s.Val.Type()) {
+						return
+					}
+					id := ir.FieldID(s.Addr)
+					if id == "" || shared[id] {
+						return
+					}
+					if fieldLoads(s.Val, shared) != "" {
+						shared[id] = true
+					}
+				})
+			}
+		}
+		reach, _ := c.Reachable([]*ssa.Function{fn})
+		bad := ""
+		for g := range reach {
+			if !c.P.InLib(g) {
+				continue
+			}
+			instrsOf(g, func(i ssa.Instruction) {
+				call, ok := i.(ssa.CallInstruction)
+				if !ok {
+					return
+				}
+				idxs := mutatingCalls[ir.CallID(call)]
+				args := ir.CallArgs(call)
+				if call.Common().IsInvoke() && call.Common().Method.Name() == "Read" && len(call.Common().Args) == 1 {
+					idxs, args = []int{0}, call.Common().Args
+				}
+				for _, k := range idxs {
+					if k >= len(args) || !isByteSlice(args[k].Type()) {
+						continue
+					}
+					if f := fieldLoads(args[k], shared); f != "" {
+						bad = "in " + name(g) + " at " + c.IPos(i) + " the buffer kept in " + strings.TrimPrefix(f, M+"/") + " is written (" + ir.CallID(call) + ")"
+					}
+				}
+			})
+		}
+		if done[name(fn)] {
+			continue
+		}
+		done[name(fn)] = true
+		c.R.Check(bad == "", rule, name(fn), "scratch", c.Pos(fn.Pos()), "no byte buffer kept on the object is written by anything the read-only operation reaches (callbacks from io.Copy included)",
+			bad+": concurrent calls share that memory")
+	}
 }
